@@ -1,4 +1,5 @@
-import Sigc.Lemmas.SpecKStepC
+import Sigc.Lemmas.SpecKSimG
+import Sigc.Props.Refine
 /-!
 # SpecK — the specification with the two known findings reproduced (`k1 = k2 = true`) vs the specification
 proper (`k1 = k2 = false`), on runs that stay clear of the two findings.
@@ -33,5 +34,109 @@ theorem step_simulates {ρ : IdRel} {t u : LSt} (h : Q ρ t u) (hq : Quiet t) (o
 example : StepR (fun _ _ => False) ({ k1 := true, k2 := true } : LSt) ({} : LSt)
     (Spec.stepSimple { k1 := true, k2 := true } (.newG 1 (some .V))) (Spec.stepSimple {} (.newG 1 (some .V))) :=
   step_simulates init_related init_quiet _
+
+/-- nothing is waiting to be collected in the initial state -/
+theorem init_settled : Settled ({ k1 := true, k2 := true } : LSt) := rfl
+
+/-- **stages 2–4, with the final states**: a run of the configuration with both known findings that stays clear
+    of them (`clearTop … = true`: no deferred sweep ever drops a connected empty slot, no accumulated emission
+    starts on a list with an emission in progress) is matched by the run of the specification proper with one
+    more unit of fuel (an emission of an existing empty list takes the `k2` shortcut in the first configuration
+    and one more recursion step in the second), ending in related states. -/
+theorem known_eq_pure_state (fuel : Nat) (P : Prog) (t : LSt)
+    (h : Spec.runTop fuel P { k1 := true, k2 := true } P.top = some t)
+    (hclear : clearTop fuel P { k1 := true, k2 := true } P.top = true) :
+    ∃ u ρ, Spec.runTop (fuel + 1) P {} P.top = some u ∧ Q ρ t u :=
+  let ⟨u, hu, ρ, hq⟩ := runTop_sim fuel P P.top _ _ _ t init_related init_settled (fun _ => rfl) hclear h
+  ⟨u, ρ, hu, hq⟩
+
+/-- **`known_eq_pure`**: for every fuel and program, if the run of the specification with both known findings
+    reproduced terminates and stays clear of them, the run of the specification proper (with `fuel + 1`)
+    terminates with **exactly the same trace** (both interpreters answer `*` in the same places).
+
+    (With the *same* fuel the statement is false: `newG G0 V; connfn C0 G0 fn:1; disc C0; emit G0 1` run with
+    fuel 3 terminates in the first configuration and runs out of fuel in the second.) -/
+theorem known_eq_pure (fuel : Nat) (P : Prog) (t : LSt)
+    (h : Spec.runTop fuel P { k1 := true, k2 := true } P.top = some t)
+    (hclear : clearTop fuel P { k1 := true, k2 := true } P.top = true) :
+    ∃ u, Spec.runTop (fuel + 1) P {} P.top = some u ∧ u.trace = t.trace :=
+  let ⟨u, _, hu, hq⟩ := known_eq_pure_state fuel P t h hclear
+  ⟨u, hu, hq.trace⟩
+
+/-- the theorem applies to all clear runs of `Refine.exProg` -/
+example : ∀ fuel t, Spec.runTop fuel Refine.exProg { k1 := true, k2 := true } Refine.exProg.top = some t →
+    clearTop fuel Refine.exProg { k1 := true, k2 := true } Refine.exProg.top = true →
+    ∃ u, Spec.runTop (fuel + 1) Refine.exProg {} Refine.exProg.top = some u ∧ u.trace = t.trace :=
+  fun fuel t h hc => known_eq_pure fuel Refine.exProg t h hc
+
+/-- concrete instance: the run of `Refine.exProg` (re-entrant emission, the running slot disconnects itself) with
+    fuel 40 terminates in the first configuration, is clear (both facts by evaluation), hence the specification
+    proper terminates with the same trace -/
+example : ∃ t u, Spec.runTop 40 Refine.exProg { k1 := true, k2 := true } Refine.exProg.top = some t ∧
+    Spec.runTop 41 Refine.exProg {} Refine.exProg.top = some u ∧ u.trace = t.trace := by
+  have hs : (Spec.runTop 40 Refine.exProg { k1 := true, k2 := true } Refine.exProg.top).isSome = true := by
+    decide +kernel
+  obtain ⟨t, ht⟩ := Option.isSome_iff_exists.mp hs
+  obtain ⟨u, hu, he⟩ := known_eq_pure 40 _ t ht (by decide +kernel)
+  exact ⟨t, u, ht, hu, he⟩
+
+/-- concrete instance with the `k2` shortcut (`exEmpty` emits an existing empty list: afterwards the two runs
+    allocate different object ids — `T1` is object 5 in one and 6 in the other) and zombie positions -/
+example : ∃ t u, Spec.runTop 40 exEmpty { k1 := true, k2 := true } exEmpty.top = some t ∧
+    Spec.runTop 41 exEmpty {} exEmpty.top = some u ∧ u.trace = t.trace ∧ t.T = [(1, 5)] ∧ u.T = [(1, 6)] := by
+  have hs : ((Spec.runTop 40 exEmpty { k1 := true, k2 := true } exEmpty.top).map (·.T)) = some [(1, 5)] := by
+    decide +kernel
+  have hp : ((Spec.runTop 41 exEmpty {} exEmpty.top).map (·.T)) = some [(1, 6)] := by
+    decide +kernel
+  cases ht : Spec.runTop 40 exEmpty { k1 := true, k2 := true } exEmpty.top with
+  | none => rw [ht] at hs; cases hs
+  | some t =>
+    rw [ht] at hs
+    obtain ⟨u, hu, he⟩ := known_eq_pure 40 _ t ht (by decide +kernel)
+    rw [hu] at hp
+    exact ⟨t, u, rfl, hu, he, by simpa using hs, by simpa using hp⟩
+
+/-- the hypothesis is needed and `clearTop` detects both findings: on the K1 program (an empty slot is connected
+    and a deferred sweep drops it) the instrumented run answers `false`, and the two configurations indeed end
+    with lists of different lengths (1 entry vs 2) -/
+example : clearTop 40 exK1 { k1 := true, k2 := true } exK1.top = false ∧
+    (Spec.runTop 40 exK1 { k1 := true, k2 := true } exK1.top).map firstLen = some (some 1) ∧
+    (Spec.runTop 41 exK1 {} exK1.top).map firstLen = some (some 2) := by decide +kernel
+
+/-- on the K2 program (an accumulated emission nested in an emission of the same list) the instrumented run
+    answers `false` -/
+example : clearTop 40 exK2 { k1 := true, k2 := true } exK2.top = false := by decide +kernel
+
+/-- **`model_refines_pure_spec`** (end to end): every terminating run of the mechanism model whose
+    specification-level counterpart stays clear of the two known findings is allowed by the specification
+    proper: the latter's run terminates (with `fuel + 1`) in a state whose trace allows the model's trace, event
+    by event (equal, or `*` where the statements leave the result open). -/
+theorem model_refines_pure_spec (fuel : Nat) (P : Prog) (s : St) (h : Model.runTop fuel P {} P.top = some s)
+    (hclear : clearTop fuel P { k1 := true, k2 := true } P.top = true) :
+    ∃ u, Spec.runTop (fuel + 1) P {} P.top = some u ∧ Refine.Allows u.trace s.trace :=
+  let ⟨t, ht, hR, _⟩ := Refine.refines_state fuel P s h
+  let ⟨u, hu, htr⟩ := known_eq_pure fuel P t ht hclear
+  ⟨u, hu, by rw [htr]; exact hR.trace⟩
+
+example : ∀ fuel s, Model.runTop fuel Refine.exProg {} Refine.exProg.top = some s →
+    clearTop fuel Refine.exProg { k1 := true, k2 := true } Refine.exProg.top = true →
+    ∃ u, Spec.runTop (fuel + 1) Refine.exProg {} Refine.exProg.top = some u ∧ Refine.Allows u.trace s.trace :=
+  fun fuel s h hc => model_refines_pure_spec fuel Refine.exProg s h hc
+
+/-- concrete instance: the mechanism model's run of `exEmpty` terminates (by evaluation) and is allowed by the
+    specification proper -/
+example : ∃ s u, Model.runTop 40 exEmpty {} exEmpty.top = some s ∧ Spec.runTop 41 exEmpty {} exEmpty.top = some u ∧
+    Refine.Allows u.trace s.trace := by
+  have hs : (Model.runTop 40 exEmpty {} exEmpty.top).isSome = true := by decide +kernel
+  obtain ⟨s, hs⟩ := Option.isSome_iff_exists.mp hs
+  obtain ⟨u, hu, ha⟩ := model_refines_pure_spec 40 exEmpty s hs (by decide +kernel)
+  exact ⟨s, u, hs, hu, ha⟩
+
+/-- the same sequence of slot invocations (which slots, in which order, nesting, arguments) -/
+theorem model_calls_pure_spec (fuel : Nat) (P : Prog) (s : St) (h : Model.runTop fuel P {} P.top = some s)
+    (hclear : clearTop fuel P { k1 := true, k2 := true } P.top = true) :
+    ∃ u, Spec.runTop (fuel + 1) P {} P.top = some u ∧ Refine.calls u.trace = Refine.calls s.trace :=
+  let ⟨u, hu, ha⟩ := model_refines_pure_spec fuel P s h hclear
+  ⟨u, hu, Refine.allows_calls ha⟩
 
 end Sigc.SpecK
